@@ -112,6 +112,7 @@ class FnResult:
         self.kernel_sites: List[ast.AST] = []
         self.numeric_sites: List[ast.AST] = []
         self.carrier_reads = 0
+        self.out_contrib: Dict[str, object] = {}  # container parameter -> meet of the confs of what is added to it
 
 
 class Confinement:
@@ -120,8 +121,14 @@ class Confinement:
         self.fns = {f.name: f for f in functions}
         self.helpers = {f.name: f for f in helpers}
         self.helper_sum: Dict[str, FrozenSet[str]] = {}
+        self.helper_out: Dict[str, Dict[str, object]] = {}
         self.results: Dict[str, FnResult] = {}
         self._inprog: Set[str] = set()
+        # every other function of the two modules is a potential (private) helper: summarised on demand
+        self.module_fns: Dict[str, FunctionInfo] = {}
+        for mname in ("calc.intersection", "calc.aux_calc"):
+            for f in ctx.repo.module(mname).functions.values():
+                self.module_fns[f.name] = f
 
     # ------------------------------------------------------------ per function
     def analyse(self, fi: FunctionInfo) -> FnResult:
@@ -135,14 +142,20 @@ class Confinement:
         self.block(fi.node.body, env, fi)
         return r
 
+    def is_helper(self, name: str) -> bool:
+        return name in self.helpers or (name in self.module_fns and name not in self.fns and name not in HULL)
+
+    def helper_fi(self, name: str) -> FunctionInfo:
+        return self.helpers.get(name) or self.module_fns[name]
+
     def helper_summary(self, name: str) -> FrozenSet[str]:
         if name in self.helper_sum:
             return self.helper_sum[name]
+        fi = self.helper_fi(name)
         if name in self._inprog:
-            return FS(self.helpers[name].params)
+            return FS(fi.params)
         self._inprog.add(name)
         saved = (getattr(self, "cur", None), getattr(self, "params", None))
-        fi = self.helpers[name]
         r = self.analyse(fi)
         self.cur, self.params = saved
         c = TOP
@@ -150,7 +163,29 @@ class Confinement:
             c = meet(c, ret["conf"])
         self._inprog.discard(name)
         self.helper_sum[name] = FS(fi.params) if c == TOP else FS(c)
+        self.helper_out[name] = dict(r.out_contrib)
         return self.helper_sum[name]
+
+    def apply_helper_out(self, call: ast.Call, env: Env, fi) -> None:
+        """a helper that adds to a container passed as argument: the caller's container now holds these elements"""
+        n = call.func.id
+        self.helper_summary(n)
+        h = self.helper_fi(n)
+        for p, c in self.helper_out.get(n, {}).items():
+            if p not in h.params:
+                continue
+            i = h.params.index(p)
+            if i >= len(call.args) or not isinstance(call.args[i], ast.Name):
+                continue
+            tgt = call.args[i].id
+            if c == TOP:
+                continue
+            add = FS()
+            for q in c:
+                if q in h.params and h.params.index(q) < len(call.args):
+                    add = cup(add, self.selfconf(call.args[h.params.index(q)], env, fi))
+            env.conf[tgt] = meet(env.conf.get(tgt, TOP), add)
+            env.contrib.setdefault(tgt, []).append((call, add, txt(call)[:70]))
 
     # ------------------------------------------------------------ expressions
     def ev(self, e, env: Env, fi) -> object:
@@ -171,7 +206,16 @@ class Confinement:
         if isinstance(e, ast.Subscript):
             return self.ev(e.value, env, fi)
         if isinstance(e, ast.IfExp):
-            return meet(self.ev(e.body, env, fi), self.ev(e.orelse, env, fi))
+            et = self.narrow(e.test, env, True, fi)
+            ef = self.narrow(e.test, env, False, fi)
+            return meet(self.ev(e.body, et, fi), self.ev(e.orelse, ef, fi))
+        if isinstance(e, (ast.Tuple, ast.List, ast.Set)):
+            c = TOP
+            for x in e.elts:
+                c = meet(c, self.ev(x, env, fi))
+            return c
+        if isinstance(e, (ast.GeneratorExp, ast.ListComp, ast.SetComp)):
+            return self.comp_conf(e, env, fi)
         if isinstance(e, ast.Call):
             fn = e.func
             if isinstance(fn, ast.Name):
@@ -189,12 +233,12 @@ class Confinement:
                     return self.ev(e.args[0], env, fi) if e.args else TOP
                 if n == "set":
                     return TOP if not e.args else self.ev(e.args[0], env, fi)
-                if n in self.helpers:
+                if self.is_helper(n):
                     hs = self.helper_summary(n)
                     c = FS()
-                    for p, a in zip(self.helpers[n].params, e.args):
+                    for p, a in zip(self.helper_fi(n).params, e.args):
                         if p in hs:
-                            c = cup(c, self.ev(a, env, fi))
+                            c = cup(c, self.selfconf(a, env, fi))
                     return c
                 if n in ("Point", "Line", "Plane", "HalfLine"):
                     # a numeric construction
@@ -256,6 +300,11 @@ class Confinement:
                     self.g4(test.values, env, fi, negated=True)
                 return env
             return env
+        if isinstance(test, ast.Name):
+            d = self.bool_def(fi, test.id)
+            if d is not None:
+                return self.narrow(d, env, truth, fi)
+            return env
         if isinstance(test, ast.Compare) and len(test.ops) == 1:
             op, L, R = test.ops[0], test.left, test.comparators[0]
             if (isinstance(op, ast.In) and truth) or (isinstance(op, ast.NotIn) and not truth):
@@ -278,11 +327,34 @@ class Confinement:
                 self.refine(env, ast.Name(id=X, ctx=ast.Load()), self.selfconf(U, env, fi), "G3", fi)
         return env
 
+    def bool_def(self, fi, name: str):
+        """the unique boolean definition of a local flag (`inside = p in b`), if its operands are stable"""
+        from .astutil import assigned_names, root_name
+        asg = assigned_names(fi.node)
+        defs = asg.get(name, [])
+        if name in fi.params or len(defs) != 1 or not isinstance(defs[0], ast.Assign):
+            return None
+        v = defs[0].value
+        if not isinstance(v, (ast.Compare, ast.BoolOp)) and not (isinstance(v, ast.UnaryOp) and isinstance(v.op, ast.Not)):
+            return None
+        for x in ast.walk(v):
+            if isinstance(x, ast.Name) and x.id in asg and x.id not in fi.params:
+                return None  # depends on another local: keep it simple
+        return v
+
     def g4(self, conjuncts, env: Env, fi, negated=False):
         """all end points of a Segment X are in Y  ->  X inside Y"""
         byx: Dict[Tuple[str, str], Set[str]] = {}
         exprs: Dict[Tuple[str, str], Tuple[ast.AST, ast.AST]] = {}
         for v in conjuncts:
+            if isinstance(v, ast.Name):
+                d = self.bool_def(fi, v.id)
+                if d is not None:
+                    v = d
+            elif isinstance(v, ast.UnaryOp) and isinstance(v.op, ast.Not) and isinstance(v.operand, ast.Name):
+                d = self.bool_def(fi, v.operand.id)
+                if d is not None:
+                    v = ast.UnaryOp(op=ast.Not(), operand=d)
             while isinstance(v, ast.UnaryOp) and isinstance(v.op, ast.Not) and isinstance(v.operand, ast.UnaryOp) \
                     and isinstance(v.operand.op, ast.Not):
                 v = v.operand.operand
@@ -348,6 +420,9 @@ class Confinement:
             return None
         if isinstance(s, ast.Assign):
             t = s.targets[0]
+            if isinstance(s.value, ast.Call) and isinstance(s.value.func, ast.Name) and self.is_helper(s.value.func.id):
+                env = env.copy()
+                self.apply_helper_out(s.value, env, fi)
             if isinstance(t, ast.Name):
                 c = self.ev(s.value, env, fi)
                 env = env.copy()
@@ -362,9 +437,10 @@ class Confinement:
                 env.contrib[t.id] = list(src) if src else ([(s, c, txt(s.value)[:60])] if c != TOP else [])
             elif isinstance(t, (ast.Tuple, ast.List)):
                 env = env.copy()
-                for x in t.elts:
+                vals = s.value.elts if isinstance(s.value, (ast.Tuple, ast.List)) and len(s.value.elts) == len(t.elts) else None
+                for i, x in enumerate(t.elts):
                     if isinstance(x, ast.Name):
-                        env.conf[x.id] = FS()
+                        env.conf[x.id] = self.ev(vals[i], env, fi) if vals else FS()
                         self.invalidate(env, x.id)
             return env
         if isinstance(s, ast.AugAssign):
@@ -379,8 +455,15 @@ class Confinement:
                 v = c.func.value.id
                 env = env.copy()
                 add = self.ev(c.args[0], env, fi)
+                if c.func.attr in ("update", "extend") and isinstance(c.args[0], (ast.GeneratorExp, ast.ListComp, ast.SetComp)):
+                    add = self.comp_conf(c.args[0], env, fi)
                 env.conf[v] = meet(env.conf.get(v, TOP), add)
                 env.contrib.setdefault(v, []).append((s, add, txt(c)[:70]))
+                if v in fi.params:
+                    self.cur.out_contrib[v] = meet(self.cur.out_contrib.get(v, TOP), add)
+            elif isinstance(c, ast.Call) and isinstance(c.func, ast.Name) and self.is_helper(c.func.id):
+                env = env.copy()
+                self.apply_helper_out(c, env, fi)
             return env
         if isinstance(s, ast.If):
             et = self.narrow(s.test, env, True, fi)
@@ -411,6 +494,17 @@ class Confinement:
         if isinstance(s, (ast.Pass, ast.Import, ast.ImportFrom, ast.Assert, ast.Global)):
             return env
         raise AnalysisError("%s: confinement analysis does not model statement kind %s" % (fi.where(s), type(s).__name__))
+
+    def comp_conf(self, comp, env: Env, fi):
+        """conf of the elements produced by  (x for x in ITER if COND)"""
+        e2 = env.copy()
+        for g in comp.generators:
+            if isinstance(g.target, ast.Name):
+                e2.conf[g.target.id] = self.ev(g.iter, e2, fi)
+                self.invalidate(e2, g.target.id)
+            for cond in g.ifs:
+                e2 = self.narrow(cond, e2, True, fi)
+        return self.ev(comp.elt, e2, fi)
 
     def _contribs(self, e, env: Env):
         """contribution list of the container an expression is derived from"""
